@@ -103,7 +103,8 @@ def to_events(trace):
                     nh = 1
             elif head == "set":
                 evs.append("ESet %d" % int(f[1]))
-            elif head in ("setdone", "attached", "woke", "drain"):
+            elif head in ("setdone", "attached", "woke", "drain", "setthrow"):
+                # setthrow: a Set whose Store threw - nothing stored, nothing published: no model event
                 if head in ("attached", "woke"):
                     ctx.pop(thr, None)
             elif head == "copy":
